@@ -1,5 +1,23 @@
+mod c01;
+mod c02;
+mod c03;
+mod c04;
+mod c05;
+mod c06;
+mod c07;
+mod c08;
+mod c09;
+mod c10;
+mod c11;
+mod c12;
+mod c13;
+mod c14;
 mod c15;
 mod c16;
+mod c17;
+mod c18;
+mod c19;
+mod c20;
 mod report;
 mod rng;
 mod util;
@@ -50,8 +68,26 @@ fn main() {
     }
     util::install_panic_hook();
     match id.as_str() {
+        "C01" => c01::run(tier, seed),
+        "C02" => c02::run(tier, seed),
+        "C03" => c03::run(tier, seed),
+        "C04" => c04::run(tier, seed),
+        "C05" => c05::run(tier, seed),
+        "C06" => c06::run(tier, seed),
+        "C07" => c07::run(tier, seed),
+        "C08" => c08::run(tier, seed),
+        "C09" => c09::run(tier, seed),
+        "C10" => c10::run(tier, seed),
+        "C11" => c11::run(tier, seed),
+        "C12" => c12::run(tier, seed),
+        "C13" => c13::run(tier, seed),
+        "C14" => c14::run(tier, seed),
         "C15" => c15::run(tier, seed),
         "C16" => c16::run(tier, seed),
+        "C17" => c17::run(tier, seed),
+        "C18" => c18::run(tier, seed),
+        "C19" => c19::run(tier, seed),
+        "C20" => c20::run(tier, seed),
         _ => {
             eprintln!("unknown property {id}");
             std::process::exit(2);
